@@ -78,15 +78,17 @@ class Runner(object):
         self.log = []          # (op, real_line, model_line, obs)
         self.mismatch = None   # (index, fields)
         self.unmodelled = False
+        self.unmodelled_idx = None
 
     def run(self, op):
         line, obs_line, obs = self.world.run(op)
         mline = None
-        if self.model is not None and self.mismatch is None and not self.unmodelled:
+        if self.model is not None and not self.unmodelled:
             mline = self.model.send(line)
             if 'UNMODELLED' in mline:
                 self.unmodelled = True
-            else:
+                self.unmodelled_idx = len(self.ops)
+            elif self.mismatch is None:
                 d = diff_obs(obs_line, mline)
                 if d:
                     self.mismatch = (len(self.ops), d)
@@ -95,10 +97,24 @@ class Runner(object):
         return obs
 
 
+CFGS = {
+    # C14: each combination of the outbound options; C15: each inbound combination incl. header_encoding
+    'out': lambda rng: dict(vo=int(rng.random() < 0.7), no=int(rng.random() < 0.7)),
+    'in': lambda rng: dict(vi=int(rng.random() < 0.7), ni=int(rng.random() < 0.6), enc=('utf-8' if rng.random() < 0.4 else None)),
+}
+
+
+def _unmodelled_at(self, idx):
+    return self.unmodelled_idx is not None and idx >= self.unmodelled_idx
+
+
+Runner.unmodelled_at = _unmodelled_at
+
+
 def gen_program(rng, model, mode='pair', steps=40, weights=None, invalid=0.15, allow_str=True, stop_on_mismatch=True,
-                max_data=70000):
+                max_data=70000, autoack=False, cfgs=None):
     r = Runner(model)
-    ops, conns = gen.setup_ops(rng, mode)
+    ops, conns = gen.setup_ops(rng, mode, CFGS[cfgs](rng) if cfgs else None)
     for op in ops:
         obs = r.run(op)
     if mode == 'upgrade':
@@ -118,7 +134,19 @@ def gen_program(rng, model, mode='pair', steps=40, weights=None, invalid=0.15, a
         if stop_on_mismatch and r.mismatch is not None:
             break
         op = g.next_op()
-        r.run(op)
+        obs = r.run(op)
+        if autoack and obs is not None and rng.random() < 0.8:
+            # the application hands every received flow-controlled byte back (C05's discipline)
+            import h2.events as EV
+            c = op['to'] if op['op'] == 'xfer' else op.get('c', 0)
+            for e in list(obs['raw_events']):
+                if isinstance(e, EV.DataReceived) and e.flow_controlled_length:
+                    n = e.flow_controlled_length
+                    if rng.random() < 0.3 and n > 1:
+                        k = rng.randrange(1, n)
+                        r.run({'op': 'ack_data', 'c': c, 'size': k, 'sid': e.stream_id})
+                        n -= k
+                    r.run({'op': 'ack_data', 'c': c, 'size': n, 'sid': e.stream_id})
         # a closed connection is a sink: look at it for a few more ops only
         if any(rc.conn.state_machine.state.name == 'CLOSED' for rc in r.world.conns.values()) and rng.random() < 0.25:
             break
